@@ -43,11 +43,19 @@
   `C06_reader_not_stranded_at_quiescence`, `C06_quiescent_all_delivered`, with witnesses that
   the side condition and each repair are necessary.
 
-  WHAT REMAINS UNPROVED for the full statement: see the comment at the end of the file.
+  THE COMPOSED CONNECTION OVER TAIL-DROP QUEUES (very last section; refined open system
+  SimVerif/StreamNet.lean: the bag of the forward direction replaced by a chain of tail-drop
+  queues): `C06_queues_refine_bag` derives `TS.okRun` from the configuration, and
+  `C06_queues_no_orphan_resend`, `C06_queues_writer_not_blocked_at_quiescence`,
+  `C06_queues_reader_not_stranded_at_quiescence`, `C06_queues_quiescent_all_delivered` hold with
+  no assumption about the network; `C06_queues_capacity_necessary`, `C06_queues_rearm_necessary`.
+
+  WHAT REMAINS UNPROVED for the full statement: see the comment before that last section.
 -/
 import SimVerif.Lemmas.TcpProgress
 import SimVerif.Props.C10
 import SimVerif.Lemmas.StreamQuiesce
+import SimVerif.Lemmas.StreamNet
 import SimVerif.TcpEx
 
 namespace SimVerif
@@ -773,13 +781,16 @@ example : QEx.qview TcpEx.c QEx.histReader
      written at the reader (`C06_quiescent_all_delivered`), and quiescence with a pending read /
      parked write / waiting retransmission is impossible.
 
-  2. The drop side condition `TS.okRun` is an ASSUMPTION about the network, justified — not
-     derived — from the property's side conditions: `C06_tail_drop_queue_nonempty` shows that a
-     queue able to hold the segment drops it only when another packet is queued; that this
-     packet belongs to the same connection and direction (hence is in the bag) is the content
-     of "one direction at a time, no foreign traffic". Deriving `TS.okRun` inside Lean needs the
-     composition of `TS` with the route's queues (SimVerif/QueueSys.lean) in place of the free
-     bag; that composition is not done.
+  2. The drop side condition `TS.okRun` is no longer an assumption about the network when the
+     forward route is a chain of tail-drop queues carrying only this connection's forward
+     packets: the last section of this file (`C06_queues_*`, system `QN` of
+     SimVerif/StreamNet.lean) DERIVES it from the configuration (each queue unlimited or of
+     capacity ≥ mss + 40; drop re-arming) and restates the four quiescence theorems without
+     it. What that section still idealises: the queues are timing-free hops (`hopDeq` at the
+     adversary's discretion — a superset of every bandwidth/latency; tied to `Q.incoming` /
+     `Q.sentPop` by `C06_hop_is_queue`), they carry NO foreign traffic (next note), and the
+     reverse path is a drop-free bag (ACKs are never dropped by a queue:
+     `C10_control_never_dropped`).
 
      NOTE (checked on the real library and on the Lean world model, scenario
      corpus/_defects/c06_sole_segment_dropped.scn): the side condition is really about the
@@ -796,5 +807,309 @@ example : QEx.qview TcpEx.c QEx.histReader
      retransmission and ignores later hand-backs (the channel is gone), so bytes accepted
      before the close can be lost — the theorems are stated for `closed = false` only.
 -/
+
+end SimVerif
+
+/-! ## the composed connection over tail-drop queues: the drop side condition discharged
+
+  Refined open system `QN` (SimVerif/StreamNet.lean): the sockets, writer loops and ghost logs
+  of `TS`, but the forward path writer → reader is a CHAIN OF TAIL-DROP QUEUES (`QNCfg.caps`: one
+  byte capacity per hop, 0 = unlimited) carrying only this connection's forward packets; each
+  hop is the timing-free abstraction of `sim::queue` (`hopDrops` = the tail-drop test of
+  `Q.incoming` on the byte account, FIFO; tied to the mechanism functions by
+  `C06_hop_is_queue`); the adversary only chooses WHEN a hop forwards its head (`hopDeq k`).
+  The reverse path carries only ACKs (payload one direction at a time), which no queue ever
+  drops (`C10_control_never_dropped`): it stays an adversarial bag without drops (`ackDeliver`).
+  A packet tail-dropped by the first hop is handed back synchronously inside the send; one
+  dropped by a later hop is handed back when it gets there; a droppable packet WITHOUT drop
+  callback is silently lost, as in the queue.
+
+  `C06_queues_refine_bag`: every history of `QN` projects to a history of `TS` that satisfies
+  `TS.okRun` and ends in the same state (same sockets, control state, ghosts; the bag is what
+  the queues and the reverse path hold). Hence the four quiescence theorems hold for `QN` with
+  NO assumption about the network — only about the configuration:
+    * `TcpStartQ c n`      — established start state (as before);
+    * `nc.CapOk (mssOf c n)` — at least one queue; each unlimited or of capacity ≥ one full
+                              segment = the writer's `mss` + 40 bytes TCP overhead;
+    * the repaired parameter values: `releaseOnDrop`, `rearmDrop` (a retransmitted segment
+      keeps its drop callback; without it a queue loses it silently —
+      `C06_queues_rearm_necessary`), and per theorem `wakeWriterFixed` / `wakeReaderFixed`;
+    * both sockets open (`closed = false`).
+  `C06_queues_capacity_necessary`: a queue with 0 < capacity < one full segment drops into an
+  EMPTY queue and strands the segment. -/
+
+namespace SimVerif
+
+/-- **A hop is a queue without time.** On every state of a well-timed history of a
+    `sim::queue` (C10's byte account holds there; it is kept by all four mechanism functions:
+    `hop_incoming`, `hop_sentPop`, `hop_beginSend_acct`, `hop_sentFinish_acct`, so the same is
+    true of the re-entrant states inside `next_packet_sent`): `incoming_packet` tail-drops
+    exactly when `hopDrops` says so on the list of packets held — the queue is then untouched
+    and the drop callback runs iff the packet has one — and otherwise appends the packet;
+    `next_packet_sent` pops the head of that list; the timer callbacks do not touch it. -/
+theorem C06_hop_is_queue (c : QCfg) (hc : c.WF) (ls : List QLbl) (h : QS.okRun c {} ls) (now : Int) (p : Pkt) :
+    let q := (QS.run c {} ls).q
+    (hopDrops c.cap q.pkts p = true → q.incoming c now p = (q, if p.hasDrop then [.dropCb p] else []))
+    ∧ (hopDrops c.cap q.pkts p = false →
+        (q.incoming c now p).1.pkts = q.pkts ++ [p] ∧ ∀ x, QEff.dropCb x ∉ (q.incoming c now p).2)
+    ∧ (∀ p' rest, q.pkts = p' :: rest → q.sentPop.2 = some p' ∧ q.sentPop.1.pkts = rest)
+    ∧ (q.beginSend c now).1.pkts = q.pkts ∧ (q.sentFinish c now).1.pkts = q.pkts := by
+  intro q
+  have ha : q.Acct := hop_of_run c hc ls h
+  obtain ⟨h1, h2⟩ := hop_incoming c now q p ha
+  refine ⟨h1, fun hd => ⟨(h2 hd).1, (h2 hd).2.2⟩, ?_, hop_beginSend c now q, hop_sentFinish c now q⟩
+  intro p' rest hq
+  obtain ⟨a, b, _⟩ := hop_sentPop q p' rest ha hq
+  exact ⟨a, b⟩
+
+/-- **The key fact.** A hop that is unlimited never drops; a hop able to hold the packet
+    tail-drops it only when it holds another packet. -/
+theorem C06_hop_drop_nonempty (cap : Nat) (held : List Pkt) (p : Pkt) (hd : hopDrops cap held p = true)
+    (hcap : cap = 0 ∨ p.size ≤ cap) : held ≠ [] :=
+  hopDrops_nonempty cap held p hd hcap
+
+/-- **Every droppable packet of the connection is at most one full segment and carries a drop
+    callback** (every history of `TS`, drop re-arming in place): what the capacity hypothesis
+    has to cover is `mss + 40`. -/
+theorem C06_segment_size (c : TcpCfg) (n : NetSt) (h : TcpStartQ c n) (hR : c.tp.rearmDrop = true)
+    (ls : List TLbl) (p : Pkt) (hp : p ∈ (TS.run c (TS.init c n) ls).bag) (hk : p.okToDrop = true) :
+    p.hasDrop = true ∧ p.size ≤ mssOf c n + 40 := by
+  have hpos : 0 < mssOf c n := by
+    obtain ⟨sa, hsa, _, _, _, _, h5, _⟩ := h.qa
+    unfold mssOf; rw [hsa]; exact h5
+  have hg : QNGood c (mssOf c n) (TS.init c n) := ⟨TInv.init h.toTcpStart, TShape.init h.toTcpStart, rfl, hpos⟩
+  exact (hg.run hR ls).bound p hp hk
+
+/-- **Refinement: the network side condition is a theorem.** Every history of the system over
+    tail-drop queues — any interleaving of API calls, queue departures and ACK deliveries —
+    projects to a history `ls` of the open system with the adversarial bag that satisfies the
+    drop side condition `TS.okRun` and ends in the same state (`QNRel`: same sockets, writer
+    control state and ghost logs; the bag holds, in some order, exactly what the queues and the
+    reverse path hold). -/
+theorem C06_queues_refine_bag (c : TcpCfg) (nc : QNCfg) (n : NetSt) (h : TcpStartQ c n)
+    (hR : c.tp.rearmDrop = true) (hcap : nc.CapOk (mssOf c n)) (nls : List QNLbl) :
+    ∃ ls, TS.okRun c (TS.init c n) ls
+      ∧ QNRel (TS.run c (TS.init c n) ls) (QN.run c nc (QN.init c nc n) nls) :=
+  QN.refines c nc n h hR hcap nls
+
+/-- **No orphan retransmission, over tail-drop queues.** While segments wait for
+    retransmission, a packet of the connection is in a queue or on the reverse path, or a
+    writer loop that will still send is in progress; never quiescent with dropped segments
+    unsent. No assumption about the network. -/
+theorem C06_queues_no_orphan_resend (c : TcpCfg) (nc : QNCfg) (n : NetSt) (h : TcpStartQ c n)
+    (hD : c.tp.releaseOnDrop = true) (hR : c.tp.rearmDrop = true) (hcap : nc.CapOk (mssOf c n))
+    (nls : List QNLbl) :
+    let s := QN.run c nc (QN.init c nc n) nls
+    s.ts.closed = false →
+    ∃ sa, s.ts.net.tcp? c.a = some sa
+      ∧ (sa.resend ≠ [] → s.inNet ≠ [] ∨ s.ts.ctl.willSend = true)
+      ∧ (s.Quiescent → sa.resend = []) := by
+  intro s hc
+  obtain ⟨ls, hok, hrel⟩ := QN.refines c nc n h hR hcap nls
+  obtain ⟨sa, h1, h2, h3⟩ := C06_no_orphan_resend c n h hD ls hok (by rw [hrel.closed]; exact hc)
+  refine ⟨sa, by rw [← hrel.net]; exact h1, ?_, fun hq => h3 (hrel.quiescent.mpr hq)⟩
+  intro hne
+  rcases h2 hne with x | x
+  · exact Or.inl (fun he => x (hrel.bag_nil.mpr he))
+  · exact Or.inr (by rw [← hrel.ctl]; exact x)
+
+/-- **The writer is not blocked at quiescence, over tail-drop queues.** -/
+theorem C06_queues_writer_not_blocked_at_quiescence (c : TcpCfg) (nc : QNCfg) (n : NetSt) (h : TcpStartQ c n)
+    (hD : c.tp.releaseOnDrop = true) (hR : c.tp.rearmDrop = true) (hF : c.tp.wakeWriterFixed = true)
+    (hcap : nc.CapOk (mssOf c n)) (nls : List QNLbl) :
+    let s := QN.run c nc (QN.init c nc n) nls
+    s.ts.closed = false →
+    ∃ sa, s.ts.net.tcp? c.a = some sa ∧ sa.connectH = none
+      ∧ (s.ts.ctl.inAck = false → sa.sendH.isSome = true → sa.inFlight + sa.mss > sa.cwnd ∨ sa.resend ≠ [])
+      ∧ (s.Quiescent → sa.sendH = none ∧ sa.inFlight = 0) := by
+  intro s hc
+  obtain ⟨ls, hok, hrel⟩ := QN.refines c nc n h hR hcap nls
+  obtain ⟨sa, h1, h2, h3, h4⟩ :=
+    C06_writer_not_blocked_at_quiescence c n h hD hF ls hok (by rw [hrel.closed]; exact hc)
+  exact ⟨sa, by rw [← hrel.net]; exact h1, h2, by rw [← hrel.ctl]; exact h3, fun hq => h4 (hrel.quiescent.mpr hq)⟩
+
+/-- **The reader is not stranded, over tail-drop queues.** -/
+theorem C06_queues_reader_not_stranded_at_quiescence (c : TcpCfg) (nc : QNCfg) (n : NetSt) (h : TcpStartQ c n)
+    (hD : c.tp.releaseOnDrop = true) (hR : c.tp.rearmDrop = true) (hW : c.tp.wakeReaderFixed = true)
+    (hcap : nc.CapOk (mssOf c n)) (nls : List QNLbl) :
+    let s := QN.run c nc (QN.init c nc n) nls
+    s.ts.closed = false →
+    ∃ sb, s.ts.net.tcp? c.b = some sb
+      ∧ ((sb.recvH.isSome = true ∨ sb.waitRecvH.isSome = true) → sb.inq = []) := by
+  intro s hc
+  obtain ⟨ls, hok, hrel⟩ := QN.refines c nc n h hR hcap nls
+  obtain ⟨sb, h1, h2⟩ :=
+    C06_reader_not_stranded_at_quiescence c n h hD hW ls hok (by rw [hrel.closed]; exact hc)
+  exact ⟨sb, by rw [← hrel.net]; exact h1, h2⟩
+
+/-- **At quiescence everything written is at the reader, over tail-drop queues**: all queues
+    and the reverse path empty, no writer loop in progress ⇒ nothing waits for retransmission,
+    the reader has every segment in order, what completed writes reported is what was written,
+    and `written = delivered ++ queued` (`= delivered` if a read is pending). -/
+theorem C06_queues_quiescent_all_delivered (c : TcpCfg) (nc : QNCfg) (n : NetSt) (h : TcpStartQ c n)
+    (hD : c.tp.releaseOnDrop = true) (hR : c.tp.rearmDrop = true) (hcap : nc.CapOk (mssOf c n))
+    (nls : List QNLbl) :
+    let s := QN.run c nc (QN.init c nc n) nls
+    s.ts.closed = false → s.Quiescent →
+    ∃ sa sb, s.ts.net.tcp? c.a = some sa ∧ s.ts.net.tcp? c.b = some sb
+      ∧ sa.resend = [] ∧ sb.nextIn = sa.nextOut ∧ sa.nextOut = s.ts.segs.length
+      ∧ s.ts.accepted = s.ts.written
+      ∧ s.ts.written = s.ts.delivered ++ bytesOf sb.inq
+      ∧ (c.tp.wakeReaderFixed = true → (sb.recvH.isSome = true ∨ sb.waitRecvH.isSome = true) →
+          s.ts.delivered = s.ts.written) := by
+  intro s hc hq
+  obtain ⟨ls, hok, hrel⟩ := QN.refines c nc n h hR hcap nls
+  obtain ⟨sa, sb, h1, h2, h3, h4, h5, h6, h7, h8⟩ :=
+    C06_quiescent_all_delivered c n h hD ls hok (by rw [hrel.closed]; exact hc) (hrel.quiescent.mpr hq)
+  refine ⟨sa, sb, by rw [← hrel.net]; exact h1, by rw [← hrel.net]; exact h2, h3, h4,
+    by rw [← hrel.segs]; exact h5, by rw [← hrel.accepted, ← hrel.written]; exact h6,
+    by rw [← hrel.written, ← hrel.delivered]; exact h7, ?_⟩
+  intro a b
+  rw [← hrel.written, ← hrel.delivered]; exact h8 a b
+
+/-- **Unlimited queues** (every capacity 0) satisfy the capacity hypothesis whatever the
+    segment size, and never drop: the quiescence theorems hold for any traffic pattern. -/
+theorem C06_queues_unlimited_capOk (k m : Nat) : ({ caps := List.replicate (k + 1) 0 } : QNCfg).CapOk m :=
+  ⟨by simp [List.replicate_succ], fun cap hc => Or.inl (List.eq_of_mem_replicate hc)⟩
+
+/-! ### witnesses (MSS 3, window 6: the state `TcpEx.n0`; a full segment is 43 bytes) -/
+
+namespace QEx
+open TcpEx
+
+/-- what the witnesses look at -/
+structure NView where
+  quiescent : Bool
+  open_     : Bool
+  hops      : List (List Nat)            -- sequence numbers held by each hop
+  rev       : List Nat                   -- ACKs on the reverse path
+  drops     : List (Nat × Nat)           -- tail-drops so far: (hop, sequence number)
+  resend    : List Nat                   -- waiting for retransmission
+  parked    : Bool                       -- a write is parked
+  rdPending : Bool                       -- a read or wait-for-read is pending
+  queued    : Nat                        -- packets in the reader's incoming queue
+  nextIn    : Nat                        -- next sequence number the reader expects
+  delivered : List UInt8
+  written   : List UInt8
+  accepted  : List UInt8
+  deriving DecidableEq, Repr
+
+def nview (c : TcpCfg) (nc : QNCfg) (n : NetSt) (ls : List QNLbl) : NView :=
+  let s := QN.run c nc (QN.init c nc n) ls
+  let sa := (s.ts.net.tcp? c.a).getD { node := "" }
+  let sb := (s.ts.net.tcp? c.b).getD { node := "" }
+  { quiescent := decide s.Quiescent, open_ := !s.ts.closed, hops := s.hops.map (·.map (·.id)),
+    rev := s.rev.map (·.id), drops := s.dropLog, resend := sa.resend.map (·.id), parked := sa.sendH.isSome,
+    rdPending := sb.recvH.isSome || sb.waitRecvH.isSome, queued := sb.inq.length, nextIn := sb.nextIn,
+    delivered := s.ts.delivered, written := s.ts.written, accepted := s.ts.accepted }
+
+def nw (l : List UInt8) (h off : Nat) : QNLbl := .api (.write 0 { h := h, bufs := [l], stream := 0, off := off })
+def nr : QNLbl := .api (.run 0)
+def nd (k : Nat) : QNLbl := .hopDeq 0 k none
+def na : QNLbl := .ackDeliver 0 0 none
+
+/-- two hops, each able to hold exactly one full segment -/
+def nc2 : QNCfg := { caps := [43, 43] }
+
+example : mssOf c n0 = 3 := by decide +kernel
+example : nc2.CapOk (mssOf c n0) := by decide +kernel
+
+/-- first write (6 bytes = segments 0, 1): segment 0 enters hop 0 and moves on to hop 1;
+    segment 1 enters hop 0, the loop ends; hop 0 forwards segment 1 into the FULL hop 1:
+    tail-dropped there (asynchronous hand-back, segment 0 still in hop 1) -/
+def netDropLater : List QNLbl := [nw [1, 2, 3, 4, 5, 6] 1 0, nd 0, nr, nr, nd 0]
+
+/-- … segment 0 reaches the reader, its ACK retransmits segment 1, which arrives and is
+    acknowledged: quiescent -/
+def netRecovered : List QNLbl := netDropLater ++ [nd 1, na, nr, nr, nd 0, nd 1, na, nr]
+
+/-- second write (segments 2, 3): segment 2 sits in hop 0, so segment 3 is tail-dropped by the
+    FIRST hop synchronously inside the segmentation loop; segment 2's ACK retransmits it;
+    everything is read -/
+def netBoth : List QNLbl :=
+  netRecovered ++ [nw [7, 8, 9, 10, 11, 12] 2 6, nr, nr,
+    nd 0, nd 1, na, nr, nr, nd 0, nd 1, na, nr, .api (.readNb [100])]
+
+/-- non-vacuity: a real drop at a later hop … -/
+example : nview c nc2 n0 netDropLater
+    = { quiescent := false, open_ := true, hops := [[], [0]], rev := [], drops := [(1, 1)], resend := [1], parked := false,
+            rdPending := false, queued := 0, nextIn := 0, delivered := [],
+            written := [1, 2, 3, 4, 5, 6], accepted := [1, 2, 3, 4, 5, 6] } := by
+  decide +kernel
+example : nview c nc2 n0 netRecovered
+    = { quiescent := true, open_ := true, hops := [[], []], rev := [], drops := [(1, 1)], resend := [], parked := false,
+            rdPending := false, queued := 2, nextIn := 2, delivered := [],
+            written := [1, 2, 3, 4, 5, 6], accepted := [1, 2, 3, 4, 5, 6] } := by
+  decide +kernel
+/-- … and one at the first hop, in ONE history that ends quiescent with all 12 bytes delivered -/
+example : nview c nc2 n0 netBoth
+    = { quiescent := true, open_ := true, hops := [[], []], rev := [], drops := [(1, 1), (0, 3)], resend := [], parked := false,
+            rdPending := false, queued := 0, nextIn := 4, delivered := [1, 2, 3, 4, 5, 6, 7, 8, 9, 10, 11, 12],
+            written := [1, 2, 3, 4, 5, 6, 7, 8, 9, 10, 11, 12], accepted := [1, 2, 3, 4, 5, 6, 7, 8, 9, 10, 11, 12] } := by
+  decide +kernel
+example := C06_queues_quiescent_all_delivered c nc2 n0 startQ rfl rfl (by decide +kernel) netBoth
+  (by decide +kernel) (by decide +kernel)
+example := C06_queues_no_orphan_resend c nc2 n0 startQ rfl rfl (by decide +kernel) netDropLater (by decide +kernel)
+
+/-- one hop that cannot hold a full segment (0 < 42 < 43) -/
+def ncSmall : QNCfg := { caps := [42] }
+
+/-- one 3-byte write -/
+def netSmall : List QNLbl := [nw [1, 2, 3] 1 0, nr]
+
+/-- the start state with a window of ten segments -/
+def n0w : NetSt := match n0.tcp? c.a with | some sa => n0.setTcp c.a { sa with cwnd := 30 } | none => n0
+
+theorem startQw : TcpStartQ c n0w := by
+  apply tcpStartQ_of_check
+  · exact tcpStart_of_check _ _ (by decide) (by decide +kernel) (by decide +kernel)
+  · decide +kernel
+  · decide +kernel
+
+def cNoRearm : TcpCfg := { c with tp := { rearmDrop := false } }
+
+/-- hop 0 holds two full segments, hop 1 one -/
+def nc3 : QNCfg := { caps := [86, 43] }
+
+/-- segments 0..3 written; 0 in hop 1, 1 and 2 in hop 0; 1 is tail-dropped by hop 1 (callback:
+    handed back), 3 joins 2 in hop 0; segment 0's ACK retransmits 1 into the full hop 0 -/
+def netRearm : List QNLbl :=
+  [nw [1, 2, 3, 4, 5, 6, 7, 8, 9, 10, 11, 12] 1 0, nd 0, nr, nr, nd 0, nr, nr,
+   nd 1, na, nr, nr,
+   nd 0, nd 1, na, nr, nd 0, nd 1, na, nr, .api (.readNb [100])]
+
+end QEx
+
+/-- **The capacity hypothesis is necessary**: a queue with 0 < capacity < one full segment
+    (42 < 43) tail-drops the segment although it is EMPTY; all repairs in place; the system is
+    quiescent with segment 0 waiting for retransmission forever, the 3 bytes a completed write
+    reported never reach the reader. -/
+theorem C06_queues_capacity_necessary :
+    QEx.ncSmall.CapOk (mssOf TcpEx.c TcpEx.n0) = False
+    ∧ QEx.nview TcpEx.c QEx.ncSmall TcpEx.n0 QEx.netSmall
+      = { quiescent := true, open_ := true, hops := [[]], rev := [], drops := [(0, 0)], resend := [0], parked := false,
+            rdPending := false, queued := 0, nextIn := 0, delivered := [],
+            written := [1, 2, 3], accepted := [1, 2, 3] } := by
+  refine ⟨eq_false (by decide +kernel), by decide +kernel⟩
+
+/-- **Drop re-arming is necessary** (`rearmDrop := false`, capacities fine): the retransmitted
+    segment 1 carries no drop callback; hop 0, full with segments 2 and 3, loses it silently
+    (second entry of the drop log). Quiescent, nothing waits for retransmission, 12 bytes
+    accepted — the reader got 3 and waits for segment 1 forever. -/
+theorem C06_queues_rearm_necessary :
+    QEx.nc3.CapOk (mssOf TcpEx.c QEx.n0w)
+    ∧ QEx.nview QEx.cNoRearm QEx.nc3 QEx.n0w QEx.netRearm
+      = { quiescent := true, open_ := true, hops := [[], []], rev := [], drops := [(1, 1), (0, 1)], resend := [], parked := false,
+            rdPending := false, queued := 0, nextIn := 1, delivered := [1, 2, 3],
+            written := [1, 2, 3, 4, 5, 6, 7, 8, 9, 10, 11, 12], accepted := [1, 2, 3, 4, 5, 6, 7, 8, 9, 10, 11, 12] } := by
+  refine ⟨by decide +kernel, by decide +kernel⟩
+
+/-- with re-arming the same history hands segment 1 back a second time (not quiescent:
+    it has been retransmitted again and sits in hop 0) -/
+example : QEx.nview TcpEx.c QEx.nc3 QEx.n0w QEx.netRearm
+    = { quiescent := false, open_ := true, hops := [[1], []], rev := [3], drops := [(1, 1), (0, 1)], resend := [], parked := false,
+            rdPending := false, queued := 0, nextIn := 1, delivered := [1, 2, 3],
+            written := [1, 2, 3, 4, 5, 6, 7, 8, 9, 10, 11, 12], accepted := [1, 2, 3, 4, 5, 6, 7, 8, 9, 10, 11, 12] } := by
+  decide +kernel
 
 end SimVerif
